@@ -1,4 +1,5 @@
 import Pcore.Proofs.Tokens
+import Pcore.Proofs.QualName
 import Pcore.Proofs.Parse
 /-!
 Layers 2–3 of C05 for literal values: the text `printVal v` parses back to `exprOf v`.
@@ -10,6 +11,14 @@ namespace Pcore.Syntax
 /-- a simple type name: an upper-case letter followed by word characters (no `::`) -/
 def TyName (n : Str) : Prop :=
   ∃ c w, n = c :: w ∧ isUpper c = true ∧ ∀ d ∈ w, isWord d = true ∧ d ≠ ':' ∧ d ≠ runeError
+
+/-- the name of an object type: segments `Seg::Seg…`, each an upper-case letter followed by word characters -/
+def ObjName (n : Str) : Prop :=
+  ∃ c w r, n = qname c w r ∧ isUpper c = true ∧ (∀ d ∈ w, isWord d = true ∧ d ≠ ':' ∧ d ≠ runeError) ∧ ∀ p ∈ r, Seg p
+
+theorem objName_of_tyName {n : Str} (h : TyName n) : ObjName n := by
+  obtain ⟨c, w, rfl, hc, hw⟩ := h
+  exact ⟨c, w, [], by simp [qname, qrest], hc, hw, by simp⟩
 
 def startsRocket : List Sym → Bool
   | .chr a :: .chr b :: _ => a = '=' && b = '>'
@@ -48,6 +57,7 @@ def Lit (env : Env) : Val → Prop
   | .hash es => LitE env es
   | .tyx n none => TyName n
   | .tyx n (some ps) => TyName n ∧ ps ≠ [] ∧ LitL env ps
+  | .obj n es => ObjName n ∧ n ≠ "Deferred".toList ∧ LitE env es
   | _ => True
 def LitL (env : Env) : List Val → Prop
   | [] => True
@@ -78,6 +88,16 @@ theorem ItemRes_rcurly (env : Env) (e : Expr) (k : List Sym) :
     ItemRes env e (.chr '}' :: k) = .ok (some (e, ⟨.rcurly, ['}']⟩, ⟨k, false, 1⟩)) := by
   simp [ItemRes, readTok_of_tok (nextToken_punct env.isLetter '}' .rcurly k (by simp)), PR.bind]
 
+theorem nextToken_lparen (il : Char → Bool) (r : List Sym) : nextToken il (.chr '(' :: r) = .tok ⟨.lparen, ['(']⟩ r false := by
+  unfold nextToken; rw [nextTok]; simp [Sym.rune, runeError, startTok, punctTok, mk]
+
+theorem nextToken_rparen (il : Char → Bool) (r : List Sym) : nextToken il (.chr ')' :: r) = .tok ⟨.rparen, [')']⟩ r false := by
+  unfold nextToken; rw [nextTok]; simp [Sym.rune, runeError, startTok, punctTok, mk]
+
+theorem ItemRes_rparen (env : Env) (e : Expr) (k : List Sym) :
+    ItemRes env e (.chr ')' :: k) = .ok (some (e, ⟨.rparen, [')']⟩, ⟨k, false, 1⟩)) := by
+  simp [ItemRes, readTok_of_tok (nextToken_rparen env.isLetter k), PR.bind]
+
 theorem ItemRes_comma (env : Env) (e : Expr) (k : List Sym) :
     ItemRes env e (.chr ',' :: k) = .ok (some (e, ⟨.comma, [',']⟩, ⟨k, false, 1⟩)) := by
   simp [ItemRes, readTok_of_tok (nextToken_punct env.isLetter ',' .comma k (by simp)), PR.bind]
@@ -105,6 +125,7 @@ theorem cvt_noEntry (l : List Expr) (h : ∀ e ∈ l, e.noEntry = true) : cvt l 
 theorem exprOf_noEntry (v : Val) : (exprOf v).noEntry = true := by
   cases v with
   | tyx n ps => cases ps <;> simp [exprOf, Expr.noEntry]
+  | obj n es => cases es <;> simp [exprOf, Expr.noEntry]
   | _ => simp [exprOf, Expr.noEntry]
 
 theorem exprsOf_noEntry (vs : List Val) : ∀ e ∈ exprsOf vs, e.noEntry = true := by
@@ -142,7 +163,7 @@ theorem item_word (env : Env) (c : Char) (w : Str) (e : Expr) (k : List Sym) (fu
   simp only [hkw, after_eq]
 
 theorem item_scalar (env : Env) (v : Val) (hv : Lit env v) (k : List Sym) (hk : stopOK k = true) (fuel : Nat)
-    (hs : match v with | .arr _ => False | .hash _ => False | .tyx _ _ => False | _ => True) :
+    (hs : match v with | .arr _ => False | .hash _ => False | .tyx _ _ => False | .obj _ _ => False | _ => True) :
     ∃ t st, readTok env (syms (printVal v) ++ k) = .ok (t, st) ∧
       parseItem env fuel t st = ItemRes env (exprOf v) k := by
   cases v with
@@ -182,6 +203,7 @@ theorem item_scalar (env : Env) (v : Val) (hv : Lit env v) (k : List Sym) (hk : 
   | arr vs => exact absurd hs (by simp)
   | hash es => exact absurd hs (by simp)
   | tyx n ps => exact absurd hs (by simp)
+  | obj n es => exact absurd hs (by simp)
 
 /-! ### containers -/
 
@@ -242,6 +264,29 @@ theorem parseItem_name_bare (env : Env) (fuel : Nat) (n : Str) (st : PS) (h : fo
   unfold parseItem ItemRes
   simp only [h1, PR.bind]
 
+theorem follows_rparen (k : List Sym) : follows (.chr ')' :: k) = true := rfl
+
+theorem identStop_lparen (k : List Sym) : identStop (.chr '(' :: k) := ⟨'(', rfl, by decide, by decide, by decide⟩
+
+/-- the `k => v` arguments of a constructor call as the parser collects them -/
+def entryExprs : List (Val × Val) → List Expr
+  | [] => []
+  | (k, v) :: es => .entry (exprOf k) (exprOf v) :: entryExprs es
+
+/-- `convertHashEntries` on a list that consists of entries only: one hash -/
+theorem cvt_entries (es : List (Val × Val)) (en : List (Expr × Expr)) (h : es ≠ [] ∨ en ≠ []) :
+    cvt (entryExprs es) en = [.hash (en.reverse ++ entriesOf es)] := by
+  induction es generalizing en with
+  | nil =>
+    cases en with
+    | nil => simp at h
+    | cons p ps => simp [entryExprs, cvt, entriesOf]
+  | cons e es ih =>
+    obtain ⟨k, v⟩ := e
+    simp only [entryExprs, cvt, entriesOf]
+    rw [ih _ (Or.inr (by simp))]
+    simp
+
 mutual
 theorem item_rt (env : Env) : (v : Val) → Lit env v → (k : List Sym) → follows k = true → (fuel : Nat) →
     2 * (printVal v).length ≤ fuel →
@@ -296,6 +341,45 @@ theorem item_rt (env : Env) : (v : Val) → Lit env v → (k : List Sym) → fol
         | nil => exact absurd rfl hne
         | cons p ps' => simp [exprsOf]
       simp [hemp]
+  | .obj n es, hv, k, hk, fuel, hf => by
+    obtain ⟨⟨c, w, r, rfl, hc, hw, hr⟩, hnd, hlit⟩ : ObjName n ∧ n ≠ "Deferred".toList ∧ LitE env es := by
+      simpa [Lit] using hv
+    have hlen : 1 ≤ (qname c w r).length := by simp [qname]
+    simp only [printVal, List.length_cons, List.length_append, List.length_nil] at hf
+    obtain ⟨f, rfl⟩ : ∃ f, fuel = f + 1 := ⟨fuel - 1, by omega⟩
+    refine ⟨⟨.name, qname c w r⟩, ⟨.chr '(' :: (syms (printEntries es ++ [')']) ++ k), false, (qname c w r).length⟩, ?_, ?_⟩
+    · have := nextToken_qname env.isLetter c w r (.chr '(' :: (syms (printEntries es ++ [')']) ++ k)) hc hw hr
+        (identStop_lparen _)
+      simp only [printVal, syms_append, syms_cons, List.append_assoc, List.cons_append] at this ⊢
+      exact readTok_of_tok this
+    · unfold parseItem
+      simp only
+      rw [readTok_of_tok (nextToken_lparen env.isLetter _)]
+      simp only [PR.bind]
+      cases es with
+      | nil =>
+        -- `Name()`
+        obtain ⟨f', rfl⟩ : ∃ f', f = f' + 1 := ⟨f - 1, by omega⟩
+        unfold arrayLoop
+        simp only [printEntries, List.nil_append, syms_cons, syms_nil, List.cons_append]
+        rw [readTok_of_tok (nextToken_rparen env.isLetter k)]
+        simp only [PR.bind]
+        unfold parseItem
+        simp only [show (TK.rparen = TK.rparen) = True from eq_self _, if_true, List.reverse_nil, cvt, asArray]
+        rw [if_pos hnd]
+        simp only [after_eq, exprOf]
+      | cons e es' =>
+        have hp := params_rt env (e :: es') hlit (by simp) k hk f (by omega)
+          ⟨syms (printEntries (e :: es') ++ [')']) ++ k, false, ['('].length⟩ [] rfl
+        simp only [entryExprs, List.reverse_nil, List.nil_append] at hp
+        simp only [syms_append] at hp ⊢
+        rw [hp]
+        simp only [asArray]
+        rw [if_pos hnd]
+        have hc2 := cvt_entries (e :: es') [] (Or.inl (by simp))
+        simp only [entryExprs, List.reverse_nil, List.nil_append] at hc2
+        rw [hc2]
+        simp only [after_eq, exprOf]
   | .undef, hv, k, hk, fuel, _ => item_scalar env _ hv k (stopOK_of_follows hk) fuel trivial
   | .dflt, hv, k, hk, fuel, _ => item_scalar env _ hv k (stopOK_of_follows hk) fuel trivial
   | .bool _, hv, k, hk, fuel, _ => item_scalar env _ hv k (stopOK_of_follows hk) fuel trivial
@@ -410,6 +494,77 @@ theorem hash_rt (env : Env) : (es : List (Val × Val)) → LitE env es → (k : 
     simp only [show (TK.comma = TK.rcurly) = False by decide, if_false, if_true]
     rw [hrec]
     simp [entriesOf]
+/-- the arguments `k => v, …` of a constructor call `Name(…)`, entered after `(`: `p.params()` collects one entry per pair
+    (two loop iterations each: the key, then — with `rockLhs` set — the value) -/
+theorem params_rt (env : Env) : (es : List (Val × Val)) → LitE env es → es ≠ [] → (k : List Sym) → follows k = true →
+    (fuel : Nat) → 2 * (printEntries es).length + 2 ≤ fuel → (st : PS) → (items : List (Val × Val)) →
+    readTok env st.rest = readTok env (syms (printEntries es ++ [')']) ++ k) →
+    arrayLoop env fuel .rparen st (entryExprs items).reverse none =
+      .ok (.arr (cvt (entryExprs items ++ entryExprs es) []), ⟨k, false, 1⟩)
+  | [], _, hne, _, _, _, _, _, _, _ => absurd rfl hne
+  | [(kk, vv)], hes, _, k, hk, fuel, hf, st, items, hst => by
+    obtain ⟨f, rfl⟩ : ∃ f, fuel = f + 1 := ⟨fuel - 1, by omega⟩
+    obtain ⟨f', rfl⟩ : ∃ f', f = f' + 1 := ⟨f - 1, by omega⟩
+    simp only [printEntries, List.length_append] at hf hst
+    have hkk : Lit env kk := hes.1
+    have hvv : Lit env vv := hes.2.1
+    let Y := syms (printVal vv) ++ (.chr ')' :: k)
+    obtain ⟨t, st1, h1, h2⟩ := item_rt env kk hkk (.chr ' ' :: .chr '=' :: .chr '>' :: .chr ' ' :: Y)
+      (by rfl) (f' + 1) (by omega)
+    obtain ⟨t2, st3, h3, h4⟩ := item_rt env vv hvv (.chr ')' :: k) (by rfl) f' (by omega)
+    have htxt : syms (printVal kk ++ (" => ".toList ++ printVal vv) ++ [')']) ++ k =
+        syms (printVal kk) ++ (.chr ' ' :: .chr '=' :: .chr '>' :: .chr ' ' :: Y) := by
+      have : " => ".toList = [' ', '=', '>', ' '] := by decide
+      simp [this, syms_append, syms_cons, Y]
+    unfold arrayLoop
+    rw [hst, htxt, h1]
+    simp only [PR.bind, h2, ItemRes_rocket]
+    simp only [show (TK.rocket = TK.rparen) = False by decide, show (TK.rocket = TK.comma) = False by decide, if_false, if_true]
+    unfold arrayLoop
+    simp only [readTok_blank]
+    rw [h3]
+    simp only [PR.bind, h4, ItemRes_rparen, if_true]
+    simp [entryExprs]
+  | (kk, vv) :: e2 :: es, hes, _, k, hk, fuel, hf, st, items, hst => by
+    obtain ⟨f, rfl⟩ : ∃ f, fuel = f + 1 := ⟨fuel - 1, by omega⟩
+    obtain ⟨f', rfl⟩ : ∃ f', f = f' + 1 := ⟨f - 1, by omega⟩
+    simp only [printEntries, List.length_append, List.length_cons] at hf
+    have hkk : Lit env kk := hes.1
+    have hvv : Lit env vv := hes.2.1
+    have hrest : LitE env (e2 :: es) := hes.2.2
+    let X := syms (printEntries (e2 :: es) ++ [')']) ++ k
+    let Y := syms (printVal vv) ++ (.chr ',' :: .chr ' ' :: X)
+    obtain ⟨t, st1, h1, h2⟩ := item_rt env kk hkk (.chr ' ' :: .chr '=' :: .chr '>' :: .chr ' ' :: Y)
+      (by rfl) (f' + 1) (by omega)
+    obtain ⟨t2, st3, h3, h4⟩ := item_rt env vv hvv (.chr ',' :: .chr ' ' :: X) (by rfl) f' (by omega)
+    have hrec := params_rt env (e2 :: es) hrest (by simp) k hk f' (by omega) ⟨.chr ' ' :: X, false, 1⟩
+      (items ++ [(kk, vv)]) (by simp only [readTok_blank]; rfl)
+    have htxt : syms (printEntries ((kk, vv) :: e2 :: es) ++ [')']) ++ k =
+        syms (printVal kk) ++ (.chr ' ' :: .chr '=' :: .chr '>' :: .chr ' ' :: Y) := by
+      have : " => ".toList = [' ', '=', '>', ' '] := by decide
+      simp [printEntries, this, syms_append, syms_cons, X, Y]
+    have hitems : (entryExprs (items ++ [(kk, vv)])).reverse = .entry (exprOf kk) (exprOf vv) :: (entryExprs items).reverse := by
+      have : ∀ a b : List (Val × Val), entryExprs (a ++ b) = entryExprs a ++ entryExprs b := by
+        intro a b; induction a with
+        | nil => rfl
+        | cons x xs ih => obtain ⟨p, q⟩ := x; simp [entryExprs, ih]
+      simp [this, entryExprs]
+    have happ : entryExprs (items ++ [(kk, vv)]) ++ entryExprs (e2 :: es) = entryExprs items ++ entryExprs ((kk, vv) :: e2 :: es) := by
+      have : ∀ a b : List (Val × Val), entryExprs (a ++ b) = entryExprs a ++ entryExprs b := by
+        intro a b; induction a with
+        | nil => rfl
+        | cons x xs ih => obtain ⟨p, q⟩ := x; simp [entryExprs, ih]
+      simp [this, entryExprs]
+    unfold arrayLoop
+    rw [hst, htxt, h1]
+    simp only [PR.bind, h2, ItemRes_rocket]
+    simp only [show (TK.rocket = TK.rparen) = False by decide, show (TK.rocket = TK.comma) = False by decide, if_false, if_true]
+    unfold arrayLoop
+    simp only [readTok_blank]
+    rw [h3]
+    simp only [PR.bind, h4, ItemRes_comma]
+    simp only [show (TK.comma = TK.rparen) = False by decide, if_false, if_true]
+    rw [← hitems, hrec, happ]
 end
 
 /-! ### the whole text -/
@@ -460,6 +615,15 @@ theorem first_tok_not_type (env : Env) (v : Val) (hv : Lit env v) (k : List Sym)
     have := inj (show readTok env (syms (printVal (.hash es)) ++ k) = _ from by
       simp only [printVal, syms_cons, List.cons_append]
       exact readTok_of_tok (nextToken_punct env.isLetter '{' .lcurly _ (by simp)))
+    subst this; simp
+  | obj n es =>
+    obtain ⟨⟨c, w, r, rfl, hc, hw, hr⟩, _, _⟩ : ObjName n ∧ n ≠ "Deferred".toList ∧ LitE env es := by
+      simpa [Lit] using hv
+    have h' := nextToken_qname env.isLetter c w r (.chr '(' :: (syms (printEntries es ++ [')']) ++ k)) hc hw hr
+      (identStop_lparen _)
+    have := inj (show readTok env (syms (printVal (.obj (qname c w r) es)) ++ k) = _ from by
+      simp only [printVal, syms_append, syms_cons, List.append_assoc, List.cons_append] at h' ⊢
+      exact readTok_of_tok h')
     subst this; simp
   | tyx n ps =>
     cases ps with
